@@ -468,6 +468,43 @@ func runC14(c *Ctx) {
 			}
 			return false
 		}
+		// A candidate that has gone may be dropped instead of failing the whole promotion when what
+		// is left is checked as a run before it is written: the list appended to processables is
+		// compared pairwise (x[i] against x[i-1]+1, the unequal edge never reaching a state write)
+		// and its head with the current end of the run (R10 promote-extends-the-current-run).
+		gapChecked := func() bool {
+			for _, st := range storesToField(promote, "txpool.addressTransactions", "processables") {
+				t := ff.Term(st.Val)
+				if t.Op != "call" || t.Sym != "builtin:append" || len(t.Args) != 2 {
+					continue
+				}
+				base := t.Args[1].String()
+				pair := false
+				for i, e := range ff.Edges {
+					f := ff.Facts[i]
+					if !f.IsCmp || f.Op != token.NEQ {
+						continue
+					}
+					l, r := f.L.String(), f.R.String()
+					if !strings.HasPrefix(l, base+"[") || !strings.HasSuffix(l, "]") {
+						continue
+					}
+					idx := l[len(base)+1 : len(l)-1]
+					if r == "("+base+"[("+idx+" - 1)] + 1)" && edgeReachesInstr(e, isStateWrite) == nil {
+						pair = true
+					}
+				}
+				head := ff.EveryPathHas(st.Block(), func(f Fact) bool {
+					return f.IsCmp && f.Op == token.EQL && strings.Contains(f.String(), "p0.processables[") && strings.Contains(f.String(), base+"[0]")
+				}) || ff.EveryPathHas(st.Block(), func(f Fact) bool {
+					return f.IsCmp && (strings.Contains(f.String(), "p0.processables[") && f.Op == token.EQL || f.Entails(CmpSpec{A: Matcher{"len(…)", func(t *Term) bool { return t.Op == "call" && t.Sym == "builtin:len" }}, NoB: true, Rel: LE, D: 0}))
+				})
+				if pair && head {
+					return true
+				}
+			}
+			return false
+		}()
 		nfail := 0
 		for i, e := range ff.Edges {
 			f := ff.Facts[i]
@@ -490,7 +527,11 @@ func runC14(c *Ctx) {
 			if w != nil {
 				det = "reaches state write at " + p.InstrPos(w)
 			}
-			c.Require("C14.R10 promote-all-or-nothing", FuncKey(promote)+": failure edge ("+desc+")", site, "a failed check never reaches a write of processables/transactions/nonces", w == nil, det)
+			if w != nil && gapChecked {
+				det = "the candidate is dropped; what is left is checked as a run (pairwise and against the current end) before " + p.InstrPos(w)
+				w = nil
+			}
+			c.Require("C14.R10 promote-all-or-nothing", FuncKey(promote)+": failure edge ("+desc+")", site, "a failed check never reaches a write of processables/transactions/nonces — unless the list that is written is checked as a gap-free continuation of the current run first", w == nil, det)
 		}
 		c.MinInstances("C14.R10 promote-all-or-nothing", nfail, 2)
 
